@@ -212,6 +212,8 @@ class Env:
             return B(n[1])
         if k == 'err':
             return ('e', n[1])
+        if k in ('cell', 'rng', 'col') and self.spec.get('strict_sheets') and [n[1], n[2]] not in [list(x) for x in self.spec.get('sheets', [])]:
+            return REF          # a sheet that the (declared) workbook does not have
         if k == 'cell':
             c, r = parse_coord(n[3])
             return Rng(n[1], n[2], (c, r, c, r))
